@@ -438,6 +438,36 @@ fn args_of(plan: &RgPlan, dir: &PathBuf, force_dot: Option<bool>) -> (Vec<String
         let old: String = (0..stale).map(|i| format!("v9{i},v8{i}\n")).collect();
         std::fs::write(p, old).expect("tmpfs write");
     }
+    // `argument-order`: for a third of the plans the same arguments are given in another order
+    // (an option keeps its value, VERTICES stays before EDGES); a pure function of the plan
+    let d = digest_bytes(&serde_json::to_vec(plan).expect("plan serialises"));
+    if d % 3 == 0 {
+        let takes_value = ["-o", "--convert", "--colors"];
+        let mut units: Vec<Vec<String>> = Vec::new();
+        let mut i = 0;
+        while i < a.len() {
+            if takes_value.contains(&a[i].as_str()) && i + 1 < a.len() {
+                units.push(vec![a[i].clone(), a[i + 1].clone()]);
+                i += 2;
+            } else {
+                units.push(vec![a[i].clone()]);
+                i += 1;
+            }
+        }
+        let is_pos = |u: &Vec<String>| u.len() == 1 && u[0].chars().all(|c| c.is_ascii_digit());
+        let positionals: Vec<Vec<String>> = units.iter().filter(|u| is_pos(u)).cloned().collect();
+        let mut rng = Prng::new(d);
+        rng.shuffle(&mut units);
+        // put the positionals back in their original relative order
+        let mut k = 0;
+        for u in units.iter_mut() {
+            if is_pos(u) {
+                *u = positionals[k].clone();
+                k += 1;
+            }
+        }
+        a = units.into_iter().flatten().collect();
+    }
     (a, outfile)
 }
 
